@@ -345,12 +345,27 @@ def _case_values(ctx, case):
             ctx.tally("setup_skipped", type(e).__name__)
             return
         raise
-    exact = case["exact"]
+    exact = case["exact"] and not case.get("near")      # perturbed / rescaled states are compared as floats
     dt = case.get("dtype", "c128")
     tol = SINGLE_TOL if dt == "single" else 1e-10
     cmp = _Cmp(exact, tol)
     n = len(case["par"])
     probs = []
+    if case.get("near") == "copy":
+        # the second state is a DIFFERENT object that is merely close to the first one (entrywise relative 1e-6):
+        # <phi|psi> differs from <psi|psi> by about 1e-6, far above the comparison tolerance (round-4 seed C04-R4A:
+        # `other == self` decided by numpy.allclose)
+        import copy as _copy
+        phi = _copy.deepcopy(psi)
+        for nid in list(phi.nodes):
+            t = np.asarray(phi.tensors[nid])
+            phi.replace_tensor(nid, t * (1.0 + 1e-6 * nprng.standard_normal(t.shape)))
+        phi.orthogonality_center_id = None      # the perturbed copy is not canonical any more (caller's bookkeeping)
+    elif case.get("near") == "tiny":
+        # two unrelated states whose entries are all below numpy.allclose's absolute tolerance
+        for st in (psi, phi):
+            for nid in list(st.nodes):
+                st.replace_tensor(nid, np.asarray(st.tensors[nid]) * 1e-9)
     if case.get("pre"):
         _apply_history(case, psi, rng, nprng, probs, ctx)
     order = sorted(psi.nodes)
@@ -1447,6 +1462,11 @@ def gen_cases(ctx):
                 case["dtype"] = arng.choice(["real", "real", "single", "view"])
         if arng.random() < 0.25:
             case["names"] = arng.choice(["prefix", "suffix"])
+        if not exact and "dtype" not in case and arng.random() < 0.08:
+            case["near"] = arng.choice(["copy", "copy", "tiny"])
+            if case["near"] == "tiny":
+                case["gauge"], case["moves"], case["mag"] = "none", 0, 0
+                case["par"] = case["par"][:3] if len(case["par"]) > 3 else case["par"]
         if arng.random() < 0.30:
             ops = ["apply", "absorb", "query"] if exact else ["apply", "absorb", "query", "normalise", "move", "canon"]
             if case.get("dtype") == "view":
